@@ -33,10 +33,15 @@ def pred_cross_weight(case):
     return any(c12.resolved(cg, x)[0] != 1 for x in cg.get("crosses") or [])
 
 
+# (n, hi) -> cp1 = bin_array([n], [0, hi]); several variants have the same bin COUNT, and the bin name depends on hi in
+# half of the cases, so that two types have a same-named coverpoint with equally many, differently named bins
+VARIANTS = [(2, 7), (4, 7), (2, 11), (3, 7), (2, 9), (1, 15), (16, 15), (3, 11), (4, 12)]
+
+
 @hyp.composite
 def cases(d):
     nvar = d.randint(1, 3)
-    variants = d.sample(c12.VARIANTS, nvar)
+    variants = d.sample(VARIANTS, nvar)
     opts = {}
     if d.chance(40):
         opts["at_least"] = d.choice([1, 2, 3])
@@ -53,7 +58,8 @@ def cases(d):
     cg = {"name": "CG", "ctor_args": ["n", "hi"],
           "params": [{"name": "a", "type": {"kind": "bit", "w": 4}}, {"name": "b", "type": {"kind": "bit", "w": 4}}],
           "options": opts,
-          "cps": [{"name": "cp1", "target": "a", "bins": [], "bins_expr": "{'x': vsc.bin_array([n], [0, hi])}",
+          "cps": [{"name": "cp1", "target": "a", "bins": [],
+                   "bins_expr": "{'x': vsc.bin_array([n], [0, hi])}" if d.chance(50) else "{('x%d' % hi): vsc.bin_array([n], [0, hi])}",
                    "ignore": [{"name": "ig", "items": [3]}], "illegal": [{"name": "il", "items": [{"t": [14, 15]}]}],
                    "options": cp1o or None},
                   {"name": "cp2", "target": "b", "bins": [{"name": "y", "kind": "bin", "items": [1, 2]},
